@@ -97,4 +97,14 @@ example :
   apply h.1.2
   exact .step 1 0 2 (by simp [T]) (.step 0 2 2 (by simp [T]) (.refl 2))
 
+open CE.Cache.Multi in
+/-- … whereas the cache the code left behind before that fix (only Link's own placeholder deleted:
+    *Link still cached) is not sound: a later request for *Link would be answered from it -/
+example :
+    let T : Types := { children := fun k => if k = 0 then [1, 2] else if k = 1 then [0] else [], bad := fun k => k = 2 }
+    ¬ Sound T (fun k => k = 1) noneInFlight := by
+  intro T hs
+  apply hs 1 rfl
+  exact .child 1 0 (fun h => h) (by simp [T]) (.child 0 2 (fun h => h) (by simp [T]) (.bad 2 (fun h => h) (by simp [T])))
+
 end CE.Props.C16
